@@ -134,7 +134,11 @@ func refEncode(t asetypes.DataType, n int, v val) ([]byte, bool) {
 	case asetypes.DATE, asetypes.DATEN:
 		return le(4, uint64(uint32(int32(day-refDay1900)))), true
 	case asetypes.TIME, asetypes.TIMEN:
-		return le(4, uint64(refTicks(us))), true
+		tk := refTicks(us)
+		if tk == 25920000 { // no tick of the next day: the last tick of the day is the nearest representable one
+			tk--
+		}
+		return le(4, uint64(tk)), true
 	case asetypes.SHORTDATE, asetypes.DATETIME, asetypes.DATETIMEN:
 		if n == 4 {
 			return append(le(2, uint64(uint16(day-refDay1900))), le(2, uint64(us/60000000))...), true
